@@ -28,6 +28,7 @@ ATTACH = {
     'ecc_probes.rs': 'mla/src/crypto/ecc.rs',
     'helpers_probes.rs': 'mla/src/helpers.rs',
     'capi_probes.rs': 'bindings/C/src/lib.rs',
+    'mlar_probes.rs': 'mlar/src/main.rs',
 }
 # cargo package that holds each attach file (default: mla)
 PACKAGE = {'bindings/C/src/lib.rs': 'mla-bindings-c'}
@@ -76,8 +77,9 @@ def run_probe(tests, keep=False):
         failed = []
         build_err = None
         for t in tests:
-            pkg = 'mla-bindings-c' if 'capi_probes' in t else 'mla'
-            cmd = ['cargo', 'test', '--offline', '-p', pkg, '--lib', '--', '--exact', t, '--test-threads', '1']
+            pkg = 'mla-bindings-c' if 'capi_probes' in t else 'mlar' if 'mlar_probes' in t else 'mla'
+            target = ['--bin', 'mlar'] if pkg == 'mlar' else ['--lib']
+            cmd = ['cargo', 'test', '--offline', '-p', pkg] + target + ['--', '--exact', t, '--test-threads', '1']
             p = subprocess.run(cmd, cwd=SCRATCH, env=env, capture_output=True, text=True, timeout=3000)
             out = p.stdout[-6000:]
             if 'error: could not compile' in p.stderr or 'error[E' in p.stderr:
